@@ -1,5 +1,6 @@
 import Mp4ff.Model.Conc
 import Mp4ff.Expect.Facts
+import Mp4ff.Expect.Transcribed
 /-!
 # C20 — independent objects can be used from concurrent goroutines
 Two halves.  (1) Facts regenerated from the Go sources on every run: the only package-level variables that any
@@ -69,5 +70,10 @@ theorem globals_are_tables_or_errors :
 /-- non-vacuity: a three-goroutine system under two different interleavings -/
 example : run (⟨fun (inp : Nat) _ g l => l + inp + g⟩ : System Nat Unit Nat) 10 () [1, 2, 1, 3] (fun _ => 0) 1 =
           run (⟨fun (inp : Nat) _ g l => l + inp + g⟩ : System Nat Unit Nat) 10 () [3, 1, 1, 2] (fun _ => 0) 1 := by decide
+
+/-- the Go functions the models of this property transcribe (committed table `spec/transcribed.json`, checked against
+    the current source by the extractor on every run) all still exist -/
+theorem model_sources_exist :
+    (["Aac.lean", "Bits.lean", "Boxes.lean"] : List String).all Mp4ff.Expect.presentFor = true := by decide +kernel
 
 end Mp4ff.Conc.C20
